@@ -2,7 +2,7 @@
 import os
 
 from . import core
-from .rules import stdio, cert, mark, exact, optstore, inval, idx, atomic
+from .rules import stdio, cert, mark, exact, optstore, inval, idx, atomic, own, tokens, idxclass
 from .effects import Effects
 
 FIX = os.path.join(os.path.dirname(os.path.abspath(__file__)), "fixtures")
@@ -117,6 +117,7 @@ def c01_rules():
         lambda prog, tier: mark.run(prog, which=("QSexact_optimal_test",)),
         lambda prog, tier: optstore.run(prog),
         lambda prog, tier: exact.run(prog, cert_scopes(prog, "OPT")),
+        lambda prog, tier: idxclass.run(prog, scope_units=("qsopt_ex/exact.c", "lib_mpq.c", "qsopt_mpq.c")),
     ]
 
 
@@ -143,6 +144,13 @@ def c05_rules():
         lambda prog, tier: inval.run_invalfn(prog),
         lambda prog, tier: inval.run_coupd(prog, eff(prog)),
     ]
+
+
+def _only(res, substr):
+    """keep only the violations / samples of a shared rule that concern this property"""
+    res.violations = [v for v in res.violations if substr in v.key]
+    res.samples = [x for x in res.samples if "installer" in str(x)] or res.samples[:2]
+    return res
 
 
 CERT_NOTE = ("trusted: clang 14 front end and export; the typestate abstraction (value classes of rval/__EGrval__ temporaries, "
@@ -223,6 +231,27 @@ PROPS = {
                       "symbol-table indices excluded) and 'validated before the first write' (some check on the same argument passed)",
         "not_decided": "duplicate-name handling beyond 'the lookup result is tested before any write'; that QSload_basis_array validates "
                        "the number of basic variables at all (it never rejects); sanitizer-visible effects in general",
+    },
+    "C14": {
+        "rules": [lambda prog, tier: own.run(prog), lambda prog, tier: tokens.run_basis(prog),
+                  lambda prog, tier: tokens.run_sections(prog, "mpq_ILLlib_writebasis", {"ENDATA"}, token_ok=lambda t: t.isupper()),
+                  lambda prog, tier: _only(inval.run_fok(prog), "basis installed"),
+                  lambda prog, tier: idxclass.run(prog, scope_units=("lib_mpq.c", "qsopt_mpq.c"))],
+        "technique": "who-may-write ownership rule over interprocedural write-effect summaries; table agreement of type-resolved string "
+                     "literals (writer format literals vs reader strcmp operands / section tables); must-follow dataflow for factorok",
+        "explanation": "Decides three structural clauses of C14: (R-OWN) no public function outside the frozen owner table may write or "
+                       "release p->basis - in particular QSwrite_basis leaves the problem's own basis in place (second sentence of C14); "
+                       "(R-TOKENS) every status code and keyword ILLlib_writebasis emits (XL, XU, UL, NAME, ENDATA) is one ILLlib_readbasis "
+                       "compares against; (R-FOK) every function that installs a basis from outside resets factorok so that the loaded "
+                       "basis becomes the solver's basis.",
+        "level_text": "Ownership/effect guarantee over all call chains plus writer/reader table agreement. Found the genuine defect named in "
+                      "the property text (QSwrite_basis(p, NULL, file) released p->basis; fixed in /repo) and QSread_and_load_basis not "
+                      "resetting factorok (fixed). Does not decide that the pairing of non-basic rows with basic columns round-trips for "
+                      "every basis.",
+        "level_note": "trusted: effect summaries (as C05); the owner table in sa/rules/own.py (one reason per function); literals are "
+                      "matched exactly, first word of each format literal",
+        "not_decided": "that writer and reader agree on the meaning of each line for every basis (value-dependent round trip); name lookup "
+                       "correctness in the symbol tables",
     },
     "C20": {
         "rules": [lambda prog, tier: stdio.run(prog)],
